@@ -117,6 +117,11 @@ class DiGraphEx(nx.DiGraph):
         if target_nodes is not None:
             graph = graph.minimal_induced_subgraph(target_nodes).copy()
 
+        # networkx (sub)graph copies are fresh instances: carry the per node tables along
+        graph.tag = deepcopy(self.tag)
+        graph.debug = deepcopy(self.debug)
+        graph.setup = deepcopy(self.setup)
+        graph.compound_priority = deepcopy(self.compound_priority)
         return graph
 
     @property
